@@ -100,6 +100,12 @@ def exact_pow2_test(expr, var):
         l, op, r = expr.left, expr.ops[0], expr.comparators[0]
         if and_minus_one(l) and isinstance(r, ast.Constant) and r.value == 0:
             return "pow2" if isinstance(op, ast.Eq) else ("notpow2" if isinstance(op, ast.NotEq) else None)
+        # var & -var == var : the lowest set bit is the whole number
+        for a_, b_ in ((l, r), (r, l)):
+            if is_var(b_) and isinstance(a_, ast.BinOp) and isinstance(a_.op, ast.BitAnd):
+                for p_, q_ in ((a_.left, a_.right), (a_.right, a_.left)):
+                    if is_var(p_) and isinstance(q_, ast.UnaryOp) and isinstance(q_.op, ast.USub) and is_var(q_.operand):
+                        return "pow2" if isinstance(op, ast.Eq) else ("notpow2" if isinstance(op, ast.NotEq) else None)
         # var.bit_count() == 1   /  bin(var).count("1") == 1
         if isinstance(r, ast.Constant) and r.value == 1 and isinstance(l, ast.Call) and isinstance(l.func, ast.Attribute):
             if l.func.attr == "bit_count" and is_var(l.func.value):
@@ -212,6 +218,12 @@ def normaliser(ctx):
     # of two.  Every power of two up to 2**31 - and 2**(k-1), 2**k for every constant k that is compared - becomes a cell of
     # its own; the cells in between hold values of one bit length and no power of two, so one representative still decides.
     reads_bits = any(isinstance(n, ast.Attribute) and n.attr == "bit_length" for n in own_nodes(fn.node))
+    sign_blind = reads_bits or any(isinstance(n, ast.Attribute) and n.attr == "bit_count" for n in own_nodes(fn.node)) \
+        or any(isinstance(n, ast.Call) and isinstance(n.func, ast.Name) and n.func.id in ("bin", "abs") for n in own_nodes(fn.node))
+    if sign_blind:
+        # bit_length(), bit_count(), bin() and abs() look at the magnitude only: the negatives of powers of two are inputs of
+        # their own kind (never valid), one cell each
+        points |= {-(1 << k) for k in (0, 1, 13, 14, 15, 16, 20, 24)}
     if reads_bits:
         small = [v for v in points if 0 < v <= 70]
         points |= {1 << k for k in range(0, 32)} | {1 << (k - 1) for k in small} | {1 << k for k in small}
@@ -362,6 +374,22 @@ def run_cell(ctx, fn, g, var, cell, fv, consts, float_names):
             v = a.value
             if isinstance(v, ast.Call) and C.is_ext_call(ctx, v, fn, ("builtins.int",)) and v.args and isinstance(v.args[0], ast.Name) and v.args[0].id == var:
                 convert_int(var)
+                if state["escape"]:
+                    # the conversion stands in a try block: a handler for ValueError decides what the caller sees
+                    child, par = a, ctx.prog.parent.get(a)
+                    while par is not None and par is not fn.node:
+                        if isinstance(par, ast.Try) and child in par.body:
+                            hs = [h for h in par.handlers if h.type is None or any(k in norm(h.type) for k in ("ValueError", "Exception", "BaseException"))]
+                            if hs:
+                                last = hs[0].body[-1] if hs[0].body else None
+                                if isinstance(last, ast.Raise) and last.exc is not None:
+                                    state["escape"] = None
+                                    state["inline_raise"] = norm(last.exc.func if isinstance(last.exc, ast.Call) else last.exc).split(".")[-1]
+                                else:
+                                    state["escape"] = None
+                                    state["unknown"] = "int(%s) fails inside a try block whose handler does not end in a raise; what happens then is not followed" % var
+                                break
+                        child, par = par, ctx.prog.parent.get(par)
             elif isinstance(v, ast.Call) and len(v.args) == 1 and isinstance(v.args[0], ast.Name) and v.args[0].id == var and not v.keywords and C.targets_of(ctx, fn, v):
                 tg = C.targets_of(ctx, fn, v)
                 if len(tg) == 1:
@@ -439,9 +467,23 @@ def run_cell(ctx, fn, g, var, cell, fv, consts, float_names):
                 state["escape"] = "bit arithmetic on a string"
                 return False
             if x <= 0:
-                # x & (x-1) for x <= 0: evaluate concretely, it is exact integer arithmetic
-                val = (x & (x - 1)) != 0
-                return val if kind == "notpow2" else (not val)
+                # for x <= 0 the spellings differ (bin() and bit_count() look at the magnitude only, x & (x-1) does not):
+                # evaluate the form that is written, concretely - it is exact integer arithmetic
+                txt_ = norm(e)
+                if "bit_count" in txt_:
+                    one = bin(x).count("1") == 1
+                elif "bin(" in txt_:
+                    one = bin(x).count("1") == 1
+                elif "& -" in txt_ or "-%s &" % var in txt_:
+                    one = (x & -x) == x
+                elif "bit_length" in txt_:
+                    one = x < 0 and False      # 1 << (bits - 1) == x never holds for x < 0; for x == 0 the shift count is negative
+                    if x == 0:
+                        state["escape"] = "negative shift count for 0"
+                        return False
+                else:
+                    one = (x & (x - 1)) == 0
+                return one if kind == "pow2" else (not one)
             return cell.pow2 if kind == "pow2" else (not cell.pow2)
         if isinstance(e, ast.Compare):
             try:
